@@ -527,26 +527,7 @@ void profile_writer(RunCtx& ctx)
     ctx.count("models");
     ctx.count("family:" + (ctx.family.empty() ? std::string{"plain"} : ctx.family));
     int step = 0;
-    Session s;
-    {
-        CallSpec c;
-        c.entry = E_XML_BUFFER;
-        c.backend = B_DOC;
-        c.bytes = xml;
-        c.ceiling = default_ceiling(xml.size());
-        int st = step++;
-        ctx.hint = "writer:load";
-        CallResult r = ctx.call(s, c, st);
-        if (ctx.violations)
-            return;
-        if (r.threw || r.ret != 0 || s.doc->has_errors()) {
-            ctx.count("models-not-accepted");
-            return;
-        }
-        ctx.count("models-accepted");
-    }
-    do_noise(ctx, rng, step, rng.below(2));
-    if (!iofault && rng.chance(0.3)) {
+    if (ctx.family != "iofault" && rng.chance(0.3)) {
         // another client loaded, saved and dropped a different model before (heap addresses are reused afterwards)
         int st0 = step++, st1 = step++;
         if (ctx.keep(st0) && ctx.keep(st1)) {
@@ -580,6 +561,25 @@ void profile_writer(RunCtx& ctx)
             other.drop();
         }
     }
+    Session s;
+    {
+        CallSpec c;
+        c.entry = E_XML_BUFFER;
+        c.backend = B_DOC;
+        c.bytes = xml;
+        c.ceiling = default_ceiling(xml.size());
+        int st = step++;
+        ctx.hint = "writer:load";
+        CallResult r = ctx.call(s, c, st);
+        if (ctx.violations)
+            return;
+        if (r.threw || r.ret != 0 || s.doc->has_errors()) {
+            ctx.count("models-not-accepted");
+            return;
+        }
+        ctx.count("models-accepted");
+    }
+    do_noise(ctx, rng, step, rng.below(2));
     // family realfile: the output goes to a real file that may already exist (shorter or longer than what will be
     // written); the file system is the one thing here that is not simulated, so the pre-state is planned from the seed
     const bool realfile = ctx.family == "realfile";
